@@ -49,6 +49,9 @@ type hySec struct {
 	armed   atomic.Bool
 	entered chan int
 	slowFor time.Duration
+	// slow Get: when armed, the next Get announces its key on 'enteredGet' and sleeps slowFor first
+	armedGet   atomic.Bool
+	enteredGet chan int
 
 	mu        sync.Mutex
 	m         map[int]hySecEntry
@@ -69,6 +72,21 @@ type hySecEntry struct {
 var errHySec = errors.New("secondary failure")
 
 func (s *hySec) Get(key int) (int, int64, int64, bool, error) {
+	if s.armedGet.CompareAndSwap(true, false) {
+		// the snapshot is what a slow tier would return: taken when the request arrives
+		s.mu.Lock()
+		e, ok := s.m[key]
+		s.mu.Unlock()
+		select {
+		case s.enteredGet <- key:
+		default:
+		}
+		time.Sleep(s.slowFor)
+		if !ok {
+			return 0, 0, 0, false, nil
+		}
+		return e.val, e.cost, e.expire, true, nil
+	}
 	s.mu.Lock()
 	defer s.mu.Unlock()
 	e, ok := s.m[key]
@@ -166,7 +184,7 @@ func execHybrid(c hyCase, x *verifkit.Ctx, c15 bool) (fail *verifkit.Failure) {
 		}
 	}()
 	vkResetWall()
-	sec := &hySec{m: map[int]hySecEntry{}, failSet: c.FailSet, failDel: c.FailDel, entered: make(chan int, 1), slowFor: 4 * time.Millisecond}
+	sec := &hySec{m: map[int]hySecEntry{}, failSet: c.FailSet, failDel: c.FailDel, entered: make(chan int, 1), enteredGet: make(chan int, 1), slowFor: 4 * time.Millisecond}
 	seq := 0
 	loaderCalls := 0
 	model := map[int]*hyModel{}
@@ -226,6 +244,7 @@ func execHybrid(c hyCase, x *verifkit.Ctx, c15 bool) (fail *verifkit.Failure) {
 	read := func(k int) (hit bool, f *verifkit.Failure) {
 		at := now()
 		inMem := memGet(k) != nil
+		flaggedBefore := inMem && steering() && cleanFlag(k)
 		calls := loaderCalls
 		var v int
 		var ok bool
@@ -244,7 +263,7 @@ func execHybrid(c hyCase, x *verifkit.Ctx, c15 bool) (fail *verifkit.Failure) {
 				model[k] = &hyModel{val: v, loader: true}
 				if steering() {
 					store.Wait()
-					if cleanFlag(k) {
+					if flaggedBefore && cleanFlag(k) {
 						// known finding: the loader wrote in place over an expired promoted entry, which keeps its
 						// 'clean copy' flag and would be evicted without write-back. Steer: drop the key from both tiers.
 						x.Class("steered(known C14-stale-copy)")
@@ -507,6 +526,91 @@ func execHybrid(c hyCase, x *verifkit.Ctx, c15 bool) (fail *verifkit.Failure) {
 			if f := settle(); f != nil {
 				return f
 			}
+		case "slowprom":
+			// a slow (4 ms) secondary Get during the promotion of key K, and a Delete (N == 0) or Set
+			// (N == 1) of exactly that key issued by a watcher while the promotion is inside it
+			if f := settle(); f != nil {
+				return f
+			}
+			m := model[st.K]
+			sec.mu.Lock()
+			_, hasCopy := sec.m[st.K]
+			sec.mu.Unlock()
+			if m == nil || m.unknown || m.deleted || memGet(st.K) != nil || !hasCopy || (m.deadline != 0 && now() >= m.deadline) {
+				x.Class("slowprom-skipped(key not only in the secondary tier)")
+				continue
+			}
+			seq++
+			wv := seq // value the watcher writes
+			type wres struct {
+				ran bool
+				ok  bool
+				err error
+			}
+			resc := make(chan wres, 1)
+			stop := make(chan struct{})
+			sec.armedGet.Store(true)
+			go func() {
+				select {
+				case k := <-sec.enteredGet:
+					if st.N == 0 {
+						err := store.DeleteWithSecondary(k)
+						resc <- wres{true, err == nil, err}
+					} else {
+						resc <- wres{true, store.Set(k, wv, 1, 0), nil}
+					}
+				case <-stop:
+					resc <- wres{}
+				}
+			}()
+			_, rf := read(st.K)
+			sec.armedGet.Store(false)
+			close(stop)
+			var wr wres
+			select {
+			case wr = <-resc:
+			case <-time.After(20 * time.Second):
+				f := failf("hybrid/write-stuck", "a Set/Delete issued during a slow secondary Get did not return")
+				f.Sticky = true
+				return f
+			}
+			if rf != nil {
+				return rf
+			}
+			if f := settle(); f != nil {
+				return f
+			}
+			if !wr.ran {
+				x.Class("slowprom-no-secondary-get")
+				break
+			}
+			x.Class("write-during-slow-promotion")
+			switch {
+			case st.N == 0 && wr.err != nil:
+				model[st.K] = &hyModel{unknown: true}
+			case st.N == 0:
+				// the Delete completed after the promotion began: whichever order they took effect in, the
+				// key is gone from both tiers once both have returned
+				m.deleted = true
+			case wr.ok:
+				model[st.K] = &hyModel{val: wv} // deadline left open (it depends on whether the Set found the promoted entry)
+			}
+			if _, f := read(st.K); f != nil {
+				f.Sig += "/after-write-during-promotion"
+				return f
+			}
+			if st.N == 1 {
+				// the re-written key has (had) a copy in the secondary tier: known finding C14-stale-copy from here
+				// on; take the key out of both tiers
+				if err := store.DeleteWithSecondary(st.K); err != nil {
+					model[st.K] = &hyModel{unknown: true}
+				} else {
+					model[st.K] = &hyModel{deleted: true}
+				}
+				if f := settle(); f != nil {
+					return f
+				}
+			}
 		case "slowdel":
 			// a slow secondary Set (4 ms) during a demotion, and a Delete of exactly that key issued
 			// while the worker is inside it
@@ -719,6 +823,12 @@ func genHybrid(c15 bool) func(t *rapid.T) hyCase {
 		// a drawn element is a short group of steps: mostly one step, sometimes the scenario
 		// 'a TTL'd key is demoted, promoted again before its deadline, and read after it'
 		groupGen := rapid.Custom(func(t *rapid.T) []hyStep {
+			if c.Prob == 1 && len(c.FailSet) == 0 && len(c.FailDel) == 0 && rapid.IntRange(0, 11).Draw(t, "promScenario") == 0 {
+				// a key that lives only in the secondary tier is promoted while somebody writes it
+				k := rapid.IntRange(0, c.Keys-1).Draw(t, "pk")
+				return []hyStep{{Op: "set", K: k, TTL: rapid.SampledFrom([]int64{0, 0, 50e9}).Draw(t, "pttl")}, {Op: "overflow", N: c.MaxSize + 2}, {Op: "settle"},
+					{Op: "slowprom", K: k, N: rapid.IntRange(0, 1).Draw(t, "pwrite")}}
+			}
 			if rapid.IntRange(0, 9).Draw(t, "scenario") == 0 {
 				k := rapid.IntRange(0, c.Keys-1).Draw(t, "gk")
 				ttl := rapid.SampledFrom([]int64{2e9, 50e9}).Draw(t, "gttl")
@@ -749,7 +859,7 @@ func TestVerifC14(t *testing.T) {
 	verifkit.Run(t, verifkit.Spec[hyCase]{
 		ID: "C14", Gen: genHybrid(false),
 		Exec:        func(c hyCase, x *verifkit.Ctx) *verifkit.Failure { return execHybrid(c, x, false) },
-		Rule:        "C14: rapid draws MaxSize 2..16, plain or loading hybrid store, entry pool on in a third of the cases, 1..4 workers, admission probability {0,0.3,1}, optional failure scripts for secondary Set/Delete, whether the workers are awaited after each step, and up to 40 steps of Set/SetWithTTL (unique values) / Get / Delete / overflow(n) / advance+tick / advance without a tick (cached clock up to 29 s stale) / settle / 'slowget' (a 4 ms slow secondary Set during a demotion with a Get of exactly that key issued meanwhile) / 'slowdel' (a 4 ms slow secondary Set during a demotion with a Delete of exactly that key issued while the worker is inside it); non-trivial = a key was demoted and later promoted, or a secondary call failed",
+		Rule:        "C14: rapid draws MaxSize 2..16, plain or loading hybrid store, entry pool on in a third of the cases, 1..4 workers, admission probability {0,0.3,1}, optional failure scripts for secondary Set/Delete, whether the workers are awaited after each step, and up to 40 steps of Set/SetWithTTL (unique values) / Get / Delete / overflow(n) / advance+tick / advance without a tick (cached clock up to 29 s stale) / settle / 'slowget' (a 4 ms slow secondary Set during a demotion with a Get of exactly that key issued meanwhile) / 'slowprom' (a 4 ms slow secondary Get during a promotion with a Delete or Set of that key issued meanwhile) / 'slowdel' (a 4 ms slow secondary Set during a demotion with a Delete of exactly that key issued while the worker is inside it); non-trivial = a key was demoted and later promoted, or a secondary call failed",
 		Assumptions: hyAssumptions,
 	})
 }
